@@ -271,7 +271,7 @@ fn wide(rng: &mut Rng) -> String {
 /// inside arrays / objects; (b) objects with a repeated member name — the later member wins, as in every JSON
 /// reader here — at every width from 2 to 1000 members, the two occurrences adjacent, far apart, first/last,
 /// spelled differently, three times.
-const SWEEP_CASES: u64 = 6 * 13 * 3 * 2 + 16 * 8;
+const SWEEP_CASES: u64 = 6 * 13 * 3 * 2 + 16 * 8 + 4352 + 24;
 
 fn sweep_text(j: u64) -> Option<String> {
     let boundary = 6 * 13 * 3 * 2;
@@ -291,7 +291,25 @@ fn sweep_text(j: u64) -> Option<String> {
     }
     let j = j - boundary;
     if j >= 16 * 8 {
-        return None;
+        // (c) every Unicode scalar value, 256 per document, as a member name and as a value (spelled by serde_json:
+        // control characters escaped, everything else raw); (d) every escape sequence next to every ASCII character
+        let k = j - 16 * 8;
+        if k < 4352 {
+            let text: String = (k as u32 * 256..k as u32 * 256 + 256).filter_map(char::from_u32).collect();
+            if text.is_empty() {
+                return Some("[]".to_string());
+            }
+            let enc = serde_json::to_string(&text).unwrap();
+            return Some(format!("{{{}: [{}, 1]}}", enc, enc));
+        }
+        let k = k - 4352;
+        if k >= 24 {
+            return None;
+        }
+        const ESCAPES: [&str; 12] = ["\\\\", "\\\"", "\\/", "\\b", "\\f", "\\n", "\\r", "\\t", "\\u0041", "\\u00e9", "\\ud83d\\ude00", "\\u2029"];
+        let esc = ESCAPES[(k % 12) as usize];
+        let items: Vec<String> = (0x20u8..0x7f).filter(|c| *c != b'"' && *c != b'\\').map(|c| if k < 12 { format!("\"{}{}x\"", esc, c as char) } else { format!("\"x{}{}\"", c as char, esc) }).collect();
+        return Some(format!("{{\"k{}{}\": [{}]}}", esc, if k < 12 { "`" } else { "" }, items.join(", ")));
     }
     let n = [2usize, 3, 5, 10, 20, 30, 31, 40, 41, 48, 64, 100, 200, 500, 1000, 33][(j % 16) as usize];
     let variant = j / 16;
